@@ -222,5 +222,5 @@ META = dict(
     stubs=["struct", "bytes", "bytearray", "dict displays -> SymDict", "logging -> null"],
     required_reach=["rejected", "encoded", "decoded", "wrong-length-rejected", "len", "bool", "real",
                     "real32-overflow-rejected", "real-decode", "text"],
-    limits=dict(quick=dict(query_timeout_ms=30000), thorough=dict(query_timeout_ms=120000)),
+    limits=dict(quick=dict(query_timeout_ms=30000), thorough=dict(query_timeout_ms=120000, crosscheck_every=3, crosscheck_max=40)),
 )
